@@ -208,10 +208,80 @@ def run_harness(binary, cmd, outdir, args, timeout=7200):
     return rc, out, rep
 
 
+REQ_TIMEOUT = float(os.environ.get("VERIF_MODEL_REQ_TIMEOUT", "30"))
+
+
+def _feed_driver(drv, pin, pout, result):
+    """One driver process answers the lines of `pin`, one at a time, with a wall-clock limit per request: a model
+    evaluation that does not return in time (the denotational models materialise every continuation and can be
+    exponentially slower than the engine on nested quantifiers) is answered `model-timeout`, the process is replaced
+    and the run goes on. A timeout is not evidence of anything: such requests are counted and left undecided."""
+    import select
+
+    def start():
+        return subprocess.Popen([drv], stdin=subprocess.PIPE, stdout=subprocess.PIPE, stderr=subprocess.DEVNULL, bufsize=0)
+
+    p = start()
+    buf = b""
+    timeouts = crashes = 0
+    with open(pin, "rb") as fin, open(pout, "wb") as fout:
+        for line in fin:
+            try:
+                p.stdin.write(line)
+            except (BrokenPipeError, OSError):
+                p.kill()
+                p = start()
+                buf = b""
+                p.stdin.write(line)
+            deadline = time.time() + REQ_TIMEOUT
+            ans = None
+            while True:
+                k = buf.find(b"\n")
+                if k >= 0:
+                    ans, buf = buf[: k + 1], buf[k + 1 :]
+                    break
+                left = deadline - time.time()
+                if left <= 0:
+                    break
+                r, _, _ = select.select([p.stdout], [], [], left)
+                if not r:
+                    break
+                chunk = os.read(p.stdout.fileno(), 65536)
+                if not chunk:
+                    ans = b""      # the driver died on this request
+                    break
+                buf += chunk
+            if ans is None or ans == b"":
+                if ans is None:
+                    timeouts += 1
+                    fout.write(b"model-timeout\n")
+                else:
+                    crashes += 1
+                    fout.write(b"model-crash\n")
+                p.kill()
+                p.wait()
+                p = start()
+                buf = b""
+            else:
+                fout.write(ans)
+    try:
+        p.stdin.close()
+    except OSError:
+        pass
+    p.wait()
+    result["timeouts"] = timeouts
+    result["crashes"] = crashes
+
+
+DRIVER_STATS = {"timeouts": 0, "crashes": 0}
+
+
 def run_driver(outdir, timeout=7200):
     """Answer req.txt with the Lean driver. The driver is a pure function of each line, so the file is
-    split into contiguous chunks answered by parallel driver processes and the replies are concatenated.
-    Everything is streamed: a thorough run has millions of long lines."""
+    dealt round-robin to parallel driver processes (expensive requests come in runs) and the replies are
+    interleaved back. Everything is streamed: a thorough run has millions of long lines. Each request has a
+    wall-clock limit (`_feed_driver`)."""
+    import threading
     drv = os.path.join(LEAN, ".lake", "build", "bin", "driver")
     reqp = os.path.join(outdir, "req.txt")
     nlines = 0
@@ -219,8 +289,6 @@ def run_driver(outdir, timeout=7200):
         for _ in f:
             nlines += 1
     jobs = max(1, min(os.cpu_count() or 1, 16, nlines // 2000 + 1))
-    # line i goes to part i mod jobs: expensive requests come in runs (one pattern, many haystacks), and
-    # contiguous chunks would leave one process with all of them
     parts = [os.path.join(outdir, "req.%d.part" % j) for j in range(jobs)]
     outs = [open(pth, "wb") for pth in parts]
     with open(reqp, "rb") as f:
@@ -228,23 +296,23 @@ def run_driver(outdir, timeout=7200):
             outs[i % jobs].write(line)
     for o in outs:
         o.close()
-    procs = []
-    for j, pin in enumerate(parts):
-        pout = os.path.join(outdir, "lean.%d.part" % j)
-        procs.append((subprocess.Popen([drv], stdin=open(pin, "rb"), stdout=open(pout, "wb"), stderr=subprocess.PIPE), pin, pout))
-    rc, err = 0, ""
+    pouts = [os.path.join(outdir, "lean.%d.part" % j) for j in range(jobs)]
+    results = [{} for _ in range(jobs)]
+    threads = [threading.Thread(target=_feed_driver, args=(drv, parts[j], pouts[j], results[j]), daemon=True) for j in range(jobs)]
+    for t in threads:
+        t.start()
     deadline = time.time() + timeout
-    for p, pin, pout in procs:
-        try:
-            _, e = p.communicate(timeout=max(1, deadline - time.time()))
-        except subprocess.TimeoutExpired:
-            p.kill()
-            _, e = p.communicate()
-            rc, err = 124, err + "driver timed out after %ds; " % timeout
-        if p.returncode not in (0, None) and rc == 0:
-            rc = p.returncode
-        err += e.decode(errors="replace")[-2000:]
-    ins = [open(pout, "rb") for _, _, pout in procs]
+    rc, err = 0, ""
+    for t in threads:
+        t.join(max(1, deadline - time.time()))
+        if t.is_alive():
+            rc, err = 124, "driver run exceeded %ds; " % timeout
+    crashes = sum(r.get("crashes", 0) for r in results)
+    DRIVER_STATS["timeouts"] += sum(r.get("timeouts", 0) for r in results)
+    DRIVER_STATS["crashes"] += crashes
+    if crashes and rc == 0:
+        rc, err = 1, "the driver died on %d request(s) (answered model-crash)" % crashes
+    ins = [open(pout, "rb") for pout in pouts]
     with open(os.path.join(outdir, "lean.txt"), "wb") as fout:
         for i in range(nlines):
             line = ins[i % jobs].readline()
@@ -253,9 +321,8 @@ def run_driver(outdir, timeout=7200):
             fout.write(line)
     for fh in ins:
         fh.close()
-    for _, pin, pout in procs:
-        os.remove(pin)
-        os.remove(pout)
+    for pth in parts + pouts:
+        os.remove(pth)
     return rc, err
 
 
@@ -276,6 +343,8 @@ def diff_replies(outdir, limit=20):
             if not (r and a and b):
                 continue
             a, b = a.rstrip("\n"), b.rstrip("\n")
+            if b == "model-timeout":
+                continue
             if a != b and len(diffs) < limit:
                 diffs.append({"request": r.rstrip("\n"), "impl": a, "model": b})
     if not (n[0] == n[1] == n[2]):
@@ -534,6 +603,8 @@ BIG_CASES = [
     ("countnest", 9, "ok"), ("countnest", 14, "ok"), ("countnest", 40, "ok"), ("countnest", 250, "ok"), ("countnest2", 30, "ok"),
     ("sibgroups", 1000, "ok"), ("sibnc", 1000, "ok"), ("siblook", 600, "ok"), ("sibclass", 1000, "ok"), ("sibvclass", 1000, "ok"),
     ("sibvnclass", 1000, "ok"), ("sibvclasstop", 600, "ok"), ("sibquant", 1000, "ok"), ("sibmod", 1000, "ok"),
+    ("dupwrap", 1, "err"), ("dupwrap", 255, "err"), ("dupwrap", 65533, "err"), ("dupwrap", 65534, "err"), ("dupwrap", 65535, "err"), ("dupwrap", 65536, "err"),
+    ("dupwrap", 131070, "err"), ("dupwraplook", 65534, "err"), ("dupwraplook", 254, "err"), ("dupwrapok", 65534, "ok"), ("dupwrapok", 3, "ok"),
     # every nesting construct x every quantifier shape at depths around the optimizer's (100) and the parser's (256) limits
     ("nestquant", 49, "ok"), ("nestquant", 50, "ok"), ("nestquant", 51, "ok"), ("nestquant", 99, "ok"), ("nestquant", 100, "ok"), ("nestquant", 101, "ok"),
     ("nestquant", 102, "ok"), ("nestquant", 126, "ok"), ("nestquant", 127, "ok"), ("nestquant", 128, "ok"), ("nestquant", 200, "ok"), ("nestquant", 253, "ok"),
@@ -883,6 +954,8 @@ def check(pid, tier, seed):
                         else:
                             tie_diffs.append(d)
                     stats["model_diffs"] = stats.get("model_diffs", 0) + len(tie_diffs)
+                    if DRIVER_STATS["timeouts"]:
+                        stats["dist"]["model-timeouts(undecided)"] = DRIVER_STATS["timeouts"]
                     if tie_diffs:
                         broken.append({"tie": "correspondence %s (model vs implementation)" % cmd, "detail": tie_diffs[:5]})
 
